@@ -208,6 +208,48 @@ def run(ctx, report):
                         report.fail('C20:not-idempotent', 'normalising the output again changes it', inp)
                     if ci % 17 == 0 and eol and not fix:
                         report.sample({'kind': kind, 'input': text[:300], 'output': out_stdout[:300]})
+        # several inputs in one invocation (paths and a glob): each is normalised on its own
+        for k in range(12 if ctx['tier'] == 'thorough' else 5):
+            picks = [rng.choice(cases) for _ in range(rng.choice([2, 2, 3]))]
+            picks.sort(key=lambda c: -len(c[2]))          # a longer file first, a shorter one after it
+            if rng.random() < 0.3:
+                rng.shuffle(picks)
+            eol, fix = rng.choice([0, 1]), rng.choice([0, 1])
+            opts = (['-e'] if eol else []) + (['-f'] if fix else [])
+            paths, singles, bad = [], [], False
+            for j, (kind, d, text) in enumerate(picks):
+                pj = os.path.join(tmp, 'multi_%d.x12' % j)
+                with open(pj, 'w', encoding='ascii', newline='') as f:
+                    f.write(text)
+                o, e = run_main(opts + [pj])
+                bad = bad or bool(e)
+                paths.append(pj)
+                singles.append(o)
+            if bad:
+                continue
+            inp = {'texts': [c[2] for c in picks], 'eol': eol, 'fix': fix}
+            report.case(('multi', tuple(c[2] for c in picks), eol, fix))
+            report.count('kind:multi-file')
+            argv_paths = paths if k % 2 == 0 else [os.path.join(tmp, 'multi_*.x12')]
+            if k % 2 == 1:
+                order = sorted(range(len(paths)), key=lambda j: paths[j])
+                import glob as _glob
+                order = [paths.index(x) for x in _glob.glob(argv_paths[0])]
+            else:
+                order = list(range(len(paths)))
+            together, e = run_main(opts + argv_paths)
+            if e or together != ''.join(singles[j] for j in order):
+                report.fail('C20:multi-file-stdout', 'several inputs in one invocation do not give the concatenation of their own normal forms',
+                            inp, got_len=len(together or ''), want_len=sum(len(x) for x in singles))
+            _, e = run_main(opts + ['-i'] + argv_paths)
+            for j, pj in enumerate(paths):
+                now = open(pj, encoding='ascii', newline='').read()
+                if now != singles[j]:
+                    report.fail('C20:multi-file-inplace', 'in-place normalisation of several inputs: file %d is not its own normal form' % j,
+                                inp, got_len=len(now), want_len=len(singles[j]))
+                    break
+            for pj in paths:
+                os.remove(pj)
         # a few runs as a real subprocess (argv, file system, exit status)
         for (kind, d, text) in cases[:3]:
             p = os.path.join(tmp, 'sub.x12')
